@@ -306,6 +306,54 @@ pub fn check_history(c: &HistCase) -> Verdict {
     pass(cls, nontrivial || it.wiped)
 }
 
+#[derive(Clone, Debug, Serialize, Deserialize)]
+pub struct DeepCase {
+    pub hash: HashId,
+    pub levels: Vec<Level>,
+    pub counter: u64,
+}
+
+/// One released signature of a key with a very tall parent tree, started from a hand-made blob
+/// (no key generation): leaf indices, child tree identifiers, randomizers and the successor key
+/// must follow the model.
+pub fn check_deep(c: &DeepCase) -> Verdict {
+    let n = c.hash.n();
+    let m = Model::rfc(c.hash);
+    let seed = gen::expand(0xdee9, n);
+    let blob = hss::private_key_blob(&c.levels, c.counter, &seed);
+    let (o, calls) = libapi::sign(c.hash, b"deep parent", &blob, Cb::Accept, None);
+    let sig = match o {
+        Out::Ok(s) => s,
+        o => return fail(sign_failure_key(c.hash, &c.levels, o.kind()), format!("{:?}", o.panic_msg())),
+    };
+    let parsed = match hss::parse_signature(&m, &sig, 8) {
+        Some(p) => p,
+        None => return fail("sig-unparseable", "released signature does not parse"),
+    };
+    let qs = hss::leaf_indices(&c.levels, c.counter as u128);
+    if parsed.sigs.iter().map(|s| s.q).collect::<Vec<_>>() != qs {
+        return fail("leaf-indices", format!("leaf indices {:?} != digits {:?}", parsed.sigs.iter().map(|s| s.q).collect::<Vec<_>>(), qs));
+    }
+    let seeds = hss::path_seeds(&m, &seed, &c.levels, &qs);
+    for i in 1..c.levels.len() {
+        if parsed.pubs[i - 1].id != seeds[i].1 {
+            return fail("tree-identifier", format!("level {} tree identifier differs from the derivation from parent leaf {} (a parent leaf beyond 16 bits selects the wrong child tree)", i, qs[i - 1]));
+        }
+        let t = crate::refmodel::lms::tree(&m, c.levels[i].0, c.levels[i].1, &seeds[i].1, &seeds[i].0);
+        if parsed.pubs[i - 1].root != t.root() {
+            return fail("tree-identifier", format!("level {} public key root differs from the derived child tree", i));
+        }
+    }
+    let l = c.levels.len();
+    if parsed.sigs[l - 1].c != hss::randomizer(&m, &seeds[l - 1].0, &seeds[l - 1].1, qs[l - 1]) {
+        return fail("randomizer", "bottom randomizer differs from the derivation");
+    }
+    if calls.len() != 1 || calls[0] != hss::private_key_blob(&c.levels, c.counter + 1, &seed) {
+        return fail("successor", "successor key is not counter + 1");
+    }
+    pass(format!("deep|{}", levels_str(&c.levels)), true)
+}
+
 const SHAPES: &[&[(u32, u32)]] = &[
     &[(8, 2)],
     &[(4, 5)],
@@ -411,5 +459,21 @@ pub fn run(ctx: &Ctx) {
             tall.push(HistCase { hash: *h, levels: shape.clone(), seed: 78, start: (1u64 << 32) - 2, ops: vec![Op::Skip(4)] });
         }
     }
+    // the very last leaf with a rejected attempt first, then a retry with another message
+    for (hi, h) in ALL_HASHES.iter().enumerate() {
+        for (si, s) in SHAPES.iter().enumerate() {
+            if (hi + si) % 3 != 0 {
+                continue;
+            }
+            let total: u64 = 1u64 << s.iter().map(|l| l.1).sum::<u32>();
+            tall.push(HistCase { hash: *h, levels: s.to_vec(), seed: 79, start: total - 1, ops: vec![Op::SignBytes { msg: 1, accept: false }, Op::Reload, Op::SignBytes { msg: 2, accept: true }, Op::SignBytes { msg: 3, accept: true }, Op::SignViaKey { msg: 4, aux_none_entry: false }] });
+            tall.push(HistCase { hash: *h, levels: s.to_vec(), seed: 80, start: total - 2, ops: vec![Op::SignViaKey { msg: 1, aux_none_entry: true }, Op::SignWithAux { msg: 5, kind: AuxKind::Valid, accept: false }, Op::RetryOtherMessage { first: 6, second: 7 }, Op::SignBytes { msg: 8, accept: true }] });
+        }
+    }
     ctx.enumerate("tall_shapes_entered_midlife", tall.len() as u64, false, |i| tall[i as usize].clone(), check_history);
+
+    // a parent tree of height 20 at a leaf index beyond 16 bits: the child tree must be the one
+    // derived from that full leaf index (one signature; the H20 tree makes this ~1 minute of one core)
+    let deep = vec![DeepCase { hash: HashId::Sha256_128, levels: vec![(2, 20), (8, 2)], counter: ((65_541u64) << 2) + 1 }];
+    ctx.enumerate("parent_leaf_beyond_16_bits", deep.len() as u64, false, |i| deep[i as usize].clone(), check_deep);
 }
